@@ -118,10 +118,13 @@ def twin_cases(run):
     from rstparse import Page
     files = ["#[[[\n# first\n#]]\nset(TW a b)\n#[[[\n# second\n#]]\nset(TW ab)\n",
              "#[[[\n# first\n#]]\noption(WITH_A B \"h\")\n#[[[\n# second\n#]]\noption(WITH_AB \"h\")\n",
-             "#[[[\n# other file\n#]]\nset(TW a b)\n", "#[[[\n# other file, one value\n#]]\nset(TW ab)\n"]
+             "#[[[\n# other file\n#]]\nset(TW a b)\n", "#[[[\n# other file, one value\n#]]\nset(TW ab)\n",
+             "if(WIN32)\n#[[[\n# on\n#]]\noption(SAME \"h1\" ON)\nelse()\n#[[[\n# off\n#]]\noption(SAME \"h2\" OFF)\nendif()\n#[[[\n# v1\n#]]\nset(SAMEV 1)\n#[[[\n# v2\n#]]\nset(SAMEV 2)\n"]
     want = [[("TW", {"Default value": "a b", "type": "list"}), ("TW", {"Default value": "ab", "type": "str"})],
             [("WITH_A", {"Help text": "B", "Default value": '"h"', "type": "bool"}), ("WITH_AB", {"Help text": '"h"', "Default value": "OFF", "type": "bool"})],
-            [("TW", {"Default value": "a b", "type": "list"})], [("TW", {"Default value": "ab", "type": "str"})]]
+            [("TW", {"Default value": "a b", "type": "list"})], [("TW", {"Default value": "ab", "type": "str"})],
+            [("SAME", {"Help text": '"h1"', "Default value": "ON", "type": "bool"}), ("SAME", {"Help text": '"h2"', "Default value": "OFF", "type": "bool"}),
+             ("SAMEV", {"Default value": "1", "type": "str"}), ("SAMEV", {"Default value": "2", "type": "str"})]]
     for src, exp in zip(files, want):
         status, text, _, _ = agg.run_real(src, agg.make_settings())
         run.count("twin-values:" + src)
